@@ -2,18 +2,25 @@
 (***************************************************************************)
 (* C17 judge.  Every observation recorded from the real code               *)
 (*    [id, cfg, e, res]                                                    *)
-(* (cfg = index into IOEnv.CFGS, the file LinearEnum wrote; e = the UPJ    *)
-(* projection of the FNode that was handed to the analysis; res = what     *)
-(* LinearChecker(problem).get_fluents(e) returned, or the exception class, *)
-(* plus -- where the driver also asked -- whether problem.kind still says  *)
-(* SIMPLE_NUMERIC_PLANNING after `e <= 0` became a precondition) is judged *)
-(* against Linear!Violations on the grid of its configuration.             *)
+(* is judged against Linear!Violations on the grid of its configuration:   *)
+(*   cfg  index into IOEnv.CFGS (the file LinearEnum wrote);               *)
+(*   e    index into IOEnv.NODES, the hash-consed table of the UPJ         *)
+(*        projections of the FNodes that were handed to the analysis       *)
+(*        (a node = [op, a = indices of the arguments, name, v]; Expr      *)
+(*        rebuilds the UPJ expression record UPExpr!Eval works on);        *)
+(*   res  [k = "ok" | "exc", l = is_linear, p / n = names of the positive  *)
+(*        / negative fluents, x = exception class, s = "T" | "F" | "E" |   *)
+(*        "-": does problem.kind keep SIMPLE_NUMERIC_PLANNING once         *)
+(*        `e <= 0` is a precondition ("-": not asked)]: what               *)
+(*        LinearChecker(problem).get_fluents(e) returned.                  *)
 (*                                                                         *)
-(* One observation = one behaviour of two states (pending -> done), so     *)
-(* that TLC's workers share the evaluation; the driver checks that         *)
-(* distinct states = 2 * number of observations.  Verdicts are total:      *)
-(* Verdict is always TRUE and prints <<"FAIL", id, clause, fluent>> for    *)
-(* every violated clause and <<"U", id, why, "">> for an unspecified one.  *)
+(* The observations are cut into NChunks chunks; a behaviour judges the    *)
+(* observations of one chunk one after the other (TLC's workers share the  *)
+(* chunks); the driver checks that distinct states = NChunks + number of   *)
+(* observations.  Verdicts are total: Verdict is always TRUE and prints    *)
+(* <<"FAIL", id, clause, fluent>> for every violated clause (plus one      *)
+(* <<"FEAT", id, feature, "">> naming the input feature for signatures)    *)
+(* and <<"U", id, why, "">> for an unspecified one.                        *)
 (* With IOEnv.T1 = "1" the same run also carries the design check T1 of    *)
 (* LinearAnalysis on every judged expression: <<"T1-REPAIR", ..>> (the     *)
 (* repaired algorithm is unsound: must never appear), <<"T1-ASWRITTEN",    *)
@@ -23,49 +30,58 @@
 EXTENDS LinearAnalysis, Json, IOUtils
 
 CfgsIn == ndJsonDeserialize(IOEnv.CFGS)
+Nodes  == ndJsonDeserialize(IOEnv.NODES)
 Obs    == ndJsonDeserialize(IOEnv.OBS)
+NChunks == 64
 \* "1": also run the design check T1 of LinearAnalysis on every judged expression
 WithT1 == IOEnv.T1 = "1"
 Grids  == TLCEval([c \in DOMAIN CfgsIn |-> GridOf(CfgsIn[c].P, CfgsIn[c].scope)])
 SetOf(s) == {s[i] : i \in DOMAIN s}
+RECURSIVE Expr(_)
+Expr(i) == LET n == Nodes[i] IN
+   [op |-> n.op, args |-> [j \in DOMAIN n.a |-> Expr(n.a[j])], name |-> n.name, v |-> n.v, vars |-> <<>>]
 
-VARIABLES oid, out
-vars == <<oid, out>>
+VARIABLES chunk, pos, out
+vars == <<chunk, pos, out>>
 
 \* the verdict on the real answer: a set of <<tag, a, b>>; every FAIL is accompanied by the
 \* input feature DivFeature (the driver puts it into the signature)
-Real(o, P, G, V) ==
-   LET ans == [lin |-> o.res.lin, pos |-> SetOf(o.res.pos), neg |-> SetOf(o.res.neg)]
+Real(o, e, P, G, V) ==
+   LET ans == [lin |-> o.res.l, pos |-> SetOf(o.res.p), neg |-> SetOf(o.res.n)]
        fails == IF o.res.k = "exc"
-                THEN (IF DefinedOnGrid(V) THEN {<<"FAIL", "raises-on-defined-expression", o.res.exc>>} ELSE {})
+                THEN (IF DefinedOnGrid(V) THEN {<<"FAIL", "raises-on-defined-expression", o.res.x>>} ELSE {})
                 ELSE {<<"FAIL", c[1], c[2]>> : c \in Violations(P, G, V, ans)}
-                     \cup (IF o.res.snp = "T" /\ ~AffineV(G, V) THEN {<<"FAIL", "kind-simple-numeric-not-affine", "">>} ELSE {})
+                     \cup (IF o.res.s = "T" /\ ~AffineV(G, V) THEN {<<"FAIL", "kind-simple-numeric-not-affine", "">>} ELSE {})
    IN fails
-      \cup (IF fails # {} THEN {<<"FEAT", DivFeature(P, o.e, G), "">>} ELSE {})
-      \cup (IF o.res.k = "exc" /\ ~DefinedOnGrid(V) THEN {<<"U", "raises-" \o o.res.exc, "">>} ELSE {})
+      \cup (IF fails # {} THEN {<<"FEAT", DivFeature(P, e, G), "">>} ELSE {})
+      \cup (IF o.res.k = "exc" /\ ~DefinedOnGrid(V) THEN {<<"U", "raises-" \o o.res.x, "">>} ELSE {})
       \cup (IF o.res.k = "ok" /\ ~DefinedSomewhere(V) THEN {<<"U", "undefined-everywhere", "">>} ELSE {})
 
 \* T1: the two variants of the implementation-shaped analysis against the same definition
-Design(o, P, G, V) ==
+Design(o, e, P, G, V) ==
    LET sc  == CfgsIn[o.cfg].scope
-       lit == An(P, sc, o.e, "literal")
-       bnd == An(P, sc, o.e, "bounds")
+       lit == An(P, sc, e, "literal")
+       bnd == An(P, sc, e, "bounds")
    IN {<<"T1-REPAIR", c[1], c[2]>> : c \in Violations(P, G, V, bnd)}
       \cup {<<"T1-ASWRITTEN", c[1], c[2]>> : c \in Violations(P, G, V, lit)}
-      \cup (IF o.res.k = "ok" /\ (lit.lin # o.res.lin \/ lit.pos # SetOf(o.res.pos) \/ lit.neg # SetOf(o.res.neg))
+      \cup (IF o.res.k = "ok" /\ (lit.lin # o.res.l \/ lit.pos # SetOf(o.res.p) \/ lit.neg # SetOf(o.res.n))
             THEN {<<"T1-DIFF", "", "">>} ELSE {})
 
 Judge(o) ==
    LET P == CfgsIn[o.cfg].P
        G == Grids[o.cfg]
-       V == ValTab(P, o.e, G)
-   IN Real(o, P, G, V) \cup (IF WithT1 THEN Design(o, P, G, V) ELSE {})
+       e == Expr(o.e)
+       V == ValTab(P, e, G)
+   IN Real(o, e, P, G, V) \cup (IF WithT1 THEN Design(o, e, P, G, V) ELSE {})
 
-Init == oid \in DOMAIN Obs /\ out = [st |-> "pending", v |-> {}]
-Next == /\ out.st = "pending"
-        /\ out' = [st |-> "done", v |-> Judge(Obs[oid])]
-        /\ oid' = oid
+\* chunk c holds the observations c, c + NChunks, c + 2 NChunks, ...
+ObsAt(c, k) == c + (k - 1) * NChunks
+Init == chunk \in 1..NChunks /\ pos = 0 /\ out = {}
+Next == /\ ObsAt(chunk, pos + 1) <= Len(Obs)
+        /\ pos' = pos + 1
+        /\ out' = Judge(Obs[ObsAt(chunk, pos + 1)])
+        /\ chunk' = chunk
 TraceSpec == Init /\ [][Next]_vars
 
-Verdict == out.st = "done" => \A c \in out.v : PrintT(<<c[1], Obs[oid].id, c[2], c[3]>>)
+Verdict == pos > 0 => \A c \in out : PrintT(<<c[1], Obs[ObsAt(chunk, pos)].id, c[2], c[3]>>)
 =============================================================================
